@@ -510,4 +510,10 @@ example :
     ∀ k < 16, crashAt {} (plan { mode := .file } dir {}).1 k = {} ∨
       crashAt {} (plan { mode := .file } dir {}).1 k = { journal := [(0,0),(0,1)], revs := [⟨2,2,false⟩] } := by decide
 
+/-- **crash_dry_run_any**: with `--dry-run` a crash at any point, in any mode, for any directory and revision
+table, leaves the database exactly as it was (the apply loop holds no database operation). -/
+theorem crash_dry_run_any (cfg : Cfg) (hd : cfg.dryRun = true) (dir : List TFile) (db : Db) (k : Nat) :
+    crashAt db (plan cfg dir db).1 k = db := by
+  simp [plan, hd, crashAt, applyOps, St.crash]
+
 end Props.C10
